@@ -1,7 +1,7 @@
 """Registry: which engine-V units and engine-K harness groups decide which property."""
 REGISTRY = {
     'C03': {
-        'v': ['c03_keyobjectset', 'c03_child_revoke', 'c03_child_remove', 'c03_ta', 'c01_roamode', 'c14_objectset'],
+        'v': ['c03_keyobjectset', 'c03_child_revoke', 'c03_child_remove', 'c03_ta', 'c04_objects', 'c01_roamode', 'c14_objectset'],
         'k': [],
         'level_text': 'Per-operation contracts on the key object set: every insert/remove records the superseded object\'s revocation and never drops one (unbounded, all inputs, loop invariants); a manifest/CRL re-issue keeps every unexpired revocation and the CRL is built from exactly that list (unit c14_objectset); removing or suspending a child puts every certificate issued to one of its keys, in every class, on the removed / suspended list of that class (unit c03_child_remove); the trust anchor revokes the certificate it replaces or revokes (unit c03_ta). "Gone from the repository after the next synchronisation" needs histories and is not decided.',
         'level_note': 'Opaque external types (rpki-rs, HashMap key model), Revocation identity = (serial, expires); callers above the contracted kernels are unverified (DESIGN A8).',
@@ -18,12 +18,12 @@ REGISTRY = {
     },
 }
 REGISTRY['C01'] = {
-    'v': ['c01_roamode', 'c01_aggregate', 'c01_aspa', 'c02_rcvd', 'c04_listener'],
+    'v': ['c01_roamode', 'c01_aggregate', 'c01_simple', 'c01_aspa', 'c01_bgpsec', 'c02_rcvd', 'c04_listener'],
     'k': [],
-    'level_text': 'Object-derivation kernels only: the ROA publication-mode switch is the 4-way table of the statement (an empty relevant set never changes strategy, so aggregated ROAs are still withdrawn by the aggregate path). When a certificate with other resources is received, the ROA / ASPA / BGPsec update events of the same event set are derived from the configuration handed in under the NEW certificate (unit c02_rcvd). ASPA objects: every object whose definition is gone or whose customer AS is no longer held is withdrawn, and objects are only issued for held customer ASes (unit c01_aspa). Aggregated ROAs carry exactly the configured authorisations (unit c01_aggregate). End-to-end relying-party validity, signatures and synchronisation with the publication server are not decided.',
+    'level_text': 'Object-derivation kernels only: the ROA publication-mode switch is the 4-way table of the statement (an empty relevant set never changes strategy, so aggregated ROAs are still withdrawn by the aggregate path). When a certificate with other resources is received, the ROA / ASPA / BGPsec update events of the same event set are derived from the configuration handed in under the NEW certificate (unit c02_rcvd). ASPA objects: every object whose definition is gone or whose customer AS is no longer held is withdrawn, and objects are only issued for held customer ASes (unit c01_aspa). Aggregated ROAs carry exactly the configured authorisations (unit c01_aggregate); outside aggregation mode every configured authorisation that has no ROA gets one and every ROA whose authorisation is gone is withdrawn, a mode switch withdraws every object of the other kind, and create_updates filters the configuration by the CURRENT certificate and dispatches on the mode (unit c01_simple). End-to-end relying-party validity, signatures and synchronisation with the publication server are not decided.',
     'level_note': 'is_currently_aggregating (keys().any(closure)) assumed; everything outside the listed kernels unverified.',
     'design_ref': 'DESIGN.md section 10.4 (as built) and section 5 / C01',
-    'not_covered': ['end-to-end RP validation, signatures, sync with the publication server, histories', 'Routes::filter / update_simple, the issuing loop of AspaObjects::create_updates beyond its filter, BgpSecCertificates::create_updates (iterator chains over HashMaps)'],
+    'not_covered': ['end-to-end RP validation, signatures, sync with the publication server, histories', 'Routes::filter and Routes::to_aggregates (iterator chains; assumed), the issuing loop of AspaObjects::create_updates beyond its filter, the loops of BgpSecCertificates::create_updates / create_renewal around their (verified) selection predicates'],
 }
 REGISTRY['C05'] = {
     'v': ['c05_routes', 'c05_child', 'c05_aspa'],
@@ -75,20 +75,20 @@ REGISTRY['C13'] = {
     'not_covered': ['cas.rs::index_get outside its filter closure (ca_handles / collect glue; the closure that decides which CAs are listed is verified)', 'root.rs::ui / assets (static files from a build artefact)', 'metrics.rs and auth.rs (login) handlers', 'HTTP status mapping; effects of refused calls beyond the facade not being called'],
 }
 REGISTRY['C14'] = {
-    'v': ['c14_objectset', 'c04_objects', 'c14_renewal', 'c14_aspa_renewal'],
+    'v': ['c14_objectset', 'c04_objects', 'c14_renewal', 'c14_aspa_renewal', 'c14_timing', 'c01_bgpsec'],
     'k': [],
-    'level_text': 'Renewal: Roas::create_renewal re-issues every simple and aggregated ROA that expires before the renewal threshold (all when forced) with the same authorisations, AspaObjects::create_renewal every due ASPA object for its own definition, and neither touches anything else. Per-key contracts on the real text: a re-issue raises the revision number by exactly one, builds CRL and manifest from the same revision (numbers and validity windows agree), leaves the payload set unchanged, builds the CRL from the key\'s own (pruned) revocations and the manifest from CRL + exactly the published objects; a class is due iff any of its key sets (current, staging, old) is due and a re-issue covers all of them. Whether the maintenance tasks run and whether windows contain the present (wall clock) is not decided.',
+    'level_text': 'Renewal: Roas::create_renewal re-issues every simple and aggregated ROA that expires before the renewal threshold (all when forced) with the same authorisations, AspaObjects::create_renewal every due ASPA object for its own definition, and neither touches anything else. Per-key contracts on the real text: a re-issue raises the revision number by exactly one, builds CRL and manifest from the same revision (numbers and validity windows agree), leaves the payload set unchanged, builds the CRL from the key\'s own (pruned) revocations and the manifest from CRL + exactly the published objects; a class is due iff any of its key sets (current, staging, old) is due and a re-issue covers all of them. Timing derivation: every re-issue threshold and validity period of IssuanceTimingConfig is computed from its own configured number of weeks (child certificates, ROAs, ASPAs, BGPsec), the manifest/CRL margin is the configured number of hours. Whether the maintenance tasks run and whether windows contain the present (wall clock) is not decided.',
     'level_note': 'PublishedCrl::build, ManifestBuilder::build_new_mft / with_objects, Revocations::remove_expired are assumed externals (rpki-rs builders, signer); time is an input.',
     'design_ref': 'DESIGN.md section 10.4 (as built) and section 5 / C14',
-    'not_covered': ['CaObjects::re_issue outside one iteration of its loop (the values_mut() iteration itself; the per-class decision and the sticky `required` flag are verified on the lifted loop body)', 'renewal of BGPsec certificates (create_renewal; ROA and ASPA renewal are covered: every due object, only those, same authorisations / definition)', 'validity windows contain the present'],
+    'not_covered': ['CaObjects::re_issue outside one iteration of its loop (the values_mut() iteration itself; the per-class decision and the sticky `required` flag are verified on the lifted loop body)', 'the loop of BgpSecCertificates::create_renewal around its (verified) due-predicate', 'validity windows contain the present'],
 }
 REGISTRY['C15'] = {
-    'v': ['c15_taproxy', 'c15_ta_republish', 'c03_ta'],
+    'v': ['c15_taproxy', 'c15_signer', 'c15_proxy_apply', 'c15_ta_republish', 'c03_ta'],
     'k': [],
-    'level_text': 'Proxy side on the real text: a signer response is accepted exactly when a request is open, the nonce equals it, a signer is associated and the response is genuine under that signer\'s ID key (iff); one open request at a time; validate of signed request/response = CMS valid AND clear text equals signed content (iff); apply sets/replaces the associated signer as a whole and removes a delivered child response. TA objects: republish gives manifest and CRL one number (the next one, or the operator override), the same window, the CRL from the TA revocation list and a manifest of the CRL plus exactly the issued certificates, and refuses a certificate of another key; add_issued / revoke_issued revoke what they replace. The signer\'s process_signer_request and the SignerResponseReceived apply arm iterate HashMaps by value and are not covered.',
+    'level_text': 'Proxy side on the real text: a signer response is accepted exactly when a request is open, the nonce equals it, a signer is associated and the response is genuine under that signer\'s ID key (iff); one open request at a time; validate of signed request/response = CMS valid AND clear text equals signed content (iff); apply sets/replaces the associated signer as a whole and removes a delivered child response. TA objects: republish gives manifest and CRL one number (the next one, or the operator override), the same window, the CRL from the TA revocation list and a manifest of the CRL plus exactly the issued certificates, and refuses a certificate of another key; add_issued / revoke_issued revoke what they replace. Signer side, the whole of process_signer_request verbatim: only a validated request is processed; every child request in it is answered under that child\'s handle with exactly one response per requested key, of the requested kind (a later request of the same child replaces an earlier one), and with nothing that belongs to another child; the exchange records the request and carries its nonce. Delivery: the SignerResponseReceived apply arm files every response under the child it is addressed to and under no other, closes the request it answers, keeps everything else, keeps the signer identity and closes the open signer request (both by-value HashMap loops under R19, nested loop invariants, unbounded).',
     'level_note': 'CMS validation, JSON decoding and PartialEq of payload types are assumed externals; mft_number_override assumed increasing (A7).',
     'design_ref': 'DESIGN.md section 10.4 (as built) and section 5 / C15',
-    'not_covered': ['TrustAnchorSigner::process_signer_request (by-value HashMap loop)', 'TrustAnchorProxy::apply arm SignerResponseReceived (by-value HashMap loops)', 'manifest/CRL numbers only increase across re-initialisation histories and operator overrides (republish takes the override as given)'],
+    'not_covered': ['content of an issued certificate / issuance response (make_issued_cert, IssuanceResponse::new are assumed externals)', 'apply arms ChildAdded / ChildRequestAdded', 'manifest/CRL numbers only increase across re-initialisation histories and operator overrides (republish takes the override as given)'],
 }
 REGISTRY['C17'] = {
     'v': ['c17_validate', 'c17_categorise'],
